@@ -109,13 +109,19 @@ def corpus_part(n_examples, shard):
 
     @st.composite
     def item(draw):
-        kind = draw(st.sampled_from(("ctor-valid", "ctor-valid", "ctor-mutant", "ctor-text", "ctor-cross", "rh", "rh-bad", "rh-near", "rh-float-syntax", "text",
+        kind = draw(st.sampled_from(("ctor-valid", "ctor-valid", "ctor-mutant", "ctor-long", "cli-long", "ctor-text", "ctor-cross", "rh", "rh-bad", "rh-near", "rh-float-syntax", "text",
                                      "interactive", "cli-vector", "cli-vector", "cli-interactive")))
         ver = draw(gen.version_key())
         if kind == "ctor-valid":
             return kind, ["ctor", ver, draw(gen.valid(ver))]
         if kind == "ctor-mutant":
             return kind, ["ctor", ver, draw(gen.mutated(ver))[0]]
+        if kind == "ctor-long":
+            return kind, ["ctor", ver, draw(gen.lengthened(ver))]
+        if kind == "cli-long":
+            v = "".join(c if c in ASCII_PRINTABLE else "?" for c in draw(gen.lengthened(ver)))
+            flags = draw(st.sampled_from(([], ["-j"], ["-a"], ["-n"])))
+            return kind, ["cli", ["-" + ver] + flags + ["--vector=" + v], None]
         if kind == "ctor-text":
             return kind, ["ctor", ver, draw(st.text(alphabet=st.characters(blacklist_categories=("Cs",)), max_size=30))]
         if kind == "ctor-cross":
@@ -256,6 +262,6 @@ def run(tier, t0):
                          ["reference interpreter: /venv/bin/python (3.12), tied to the specification by C01-C17",
                           "hash() values and the key order of unsorted dicts are not observables; text-extraction results compared sorted",
                           "interpreters found: %s" % ", ".join(found)],
-                         required=["kind:" + k for k in ("ctor-valid", "ctor-mutant", "ctor-text", "ctor-cross", "rh", "rh-bad", "rh-near", "rh-float-syntax", "text", "interactive", "cli-vector", "cli-interactive", "interactive-nonascii")]
+                         required=["kind:" + k for k in ("ctor-valid", "ctor-mutant", "ctor-long", "cli-long", "ctor-text", "ctor-cross", "rh", "rh-bad", "rh-near", "rh-float-syntax", "text", "interactive", "cli-vector", "cli-interactive", "interactive-nonascii")]
                          + ["python:" + f for f in found],
                          extra={"interpreters": found + ["venv-3.12 (reference)"], "corpus_items": len(items)})
